@@ -1491,12 +1491,43 @@ class Tensor(object):
     ):
 
         key = self._process_key(key)
+        # The assignment is linear in the value: a non-finite value would turn 0 * value into NaN everywhere else
+        if isinstance(value, (int, float, np.generic)) and not np.isfinite(value):
+            raise ValueError("Cannot assign a non-finite value to a compressed tensor")
+        if isinstance(value, (np.ndarray, torch.Tensor)) and not np.all(
+            np.isfinite(np.asarray(value.detach().cpu() if isinstance(value, torch.Tensor) else value, dtype=float))
+        ):
+            raise ValueError("Cannot assign non-finite values to a compressed tensor")
         if not self.batch and any(
             isinstance(k, slice) and len(range(*k.indices(self.shape[i]))) == 0
             for i, k in enumerate(key)
         ):
-            return  # Empty selection: nothing to assign (as in NumPy)
+            # Empty selection: nothing to assign (as in NumPy), but a malformed assignment is still an error
+            selected = []
+            for i, k in enumerate(key):
+                if isinstance(k, slice):
+                    selected.append(len(range(*k.indices(self.shape[i]))))
+                elif hasattr(k, "__len__"):
+                    selected.append(len(k))
+                else:
+                    if k < -self.shape[i] or k >= self.shape[i]:
+                        raise IndexError(
+                            "Index {} is out of bounds for dimension {}".format(k, i)
+                        )
+                    selected.append(None)
+            if hasattr(value, "shape") and len(value.shape) > 0:
+                with_ints = [1 if sz is None else sz for sz in selected]
+                without_ints = [sz for sz in selected if sz is not None]
+                if list(value.shape) not in (with_ints, without_ints):
+                    raise ValueError(
+                        "Shape mismatch in tensor assignment: {} (lhs) != {} (rhs)".format(
+                            without_ints, list(value.shape)
+                        )
+                    )
+            return
         scalar = False
+        if isinstance(value, np.ndarray) and self.batch:
+            value = torch.tensor(value)
         if isinstance(value, np.ndarray):
             value = tn.Tensor(torch.tensor(value), batch=self.batch)
         elif isinstance(value, torch.Tensor):
